@@ -67,7 +67,7 @@ def real() -> Mods:
 
 
 _CLASS_STATE = {}
-ALL_MODULES = ("protocol", "modbus", "sensor", "inverter", "et", "es", "dt")
+ALL_MODULES = ("protocol", "modbus", "sensor", "inverter", "et", "es", "dt", "model")
 
 
 def reset_mutable_class_state(M, modules=("protocol", "modbus")):
@@ -80,7 +80,8 @@ def reset_mutable_class_state(M, modules=("protocol", "modbus")):
         owners = [mod] + [c for c in vars(mod).values() if isinstance(c, type) and c.__module__ == mod.__name__]
         for o in owners:
             for attr, val in list(vars(o).items()):
-                if attr.startswith("__") or not isinstance(val, (dict, list, set)) or attr.isupper() or attr.startswith("_CRC"):
+                if attr.startswith("__") or not isinstance(val, (dict, list, set)) or attr.startswith("_CRC") or \
+                        (attr.isupper() and not attr.startswith("_")):      # public constants (label tables) are never mutated
                     continue
                 key = (id(o), attr)
                 if key not in _CLASS_STATE:
